@@ -116,7 +116,7 @@ func (c10) ID() string { return "C10" }
 
 func (c10) Plan(tier string) fw.Plan {
 	p := fw.Plan{
-		Batches: 16, Cases: 3000, TimeoutSec: 1500, MemMB: 8192, Level: "exploration",
+		Batches: 16, Cases: 9000, TimeoutSec: 1500, MemMB: 8192, Level: "exploration",
 		Rule:        "three interleaved case families. (A) decoders: the five decoders (dag-cbor, cbor, dag-json, json, raw) × inputs (uniform random bytes; single/multi-point mutations of valid encodings; structure-aware hostile inputs: maximal and wrapping declared lengths in every length position, nesting at MaxDepth−1/0/+1 incl. link/bytes values between levels for dag-json, many tiny items, huge tags) × configurations (MaxDepth ∈ {1,2,16,default}, AllocationBudget ∈ {1,64,4096,default}, MaxCollectionPrealloc ∈ {1,16,1024,2^20}, strict/relaxed, links on/off, stop-at-end on/off; dag-json ParseLinks/ParseBytes/MaxDepth) × targets (basicnode Any, recording assembler, bindnode and generated typed prototypes). Monitors: panic/process death; nesting depth seen by a recording assembler ≤ MaxDepth; bytes allocated (runtime.MemStats.TotalAlloc delta, sampled cases) ≤ 256·budget + 1024·len(input) + 1 MiB for dag-cbor into basicnode and ≤ 4096·len(input) + 1 MiB for the JSON decoders. (B) selector compilation of random trees, mutated valid specs and well-shaped specs with extreme integers and degenerate recursion; every selector that compiles is walked (WalkAdv, WalkMatching, WalkTransforming) over random graphs through a link system serving arbitrary bytes for arbitrary links incl. links whose declared digest length exceeds the hash output. (C) datamodel.ParsePath on arbitrary strings. Termination: per-batch watchdog (inconclusive when it fires). Non-trivial: structured (non-uniform-random) input; distinct by input hash.",
 		Assumptions: []string{"allocation constants are calibrated on the unchanged tree with ≥4× headroom; the monitor polices growth with the configured budget, not constants"},
 		MinEvents:   []string{"decodes:dagcbor", "decodes:dagjson", "decodes:cbor", "decodes:json", "decodes:raw", "depth_checks", "alloc_checks", "selector_compiles", "selectors_compiled_ok", "walks", "parsepath_calls"},
